@@ -1,2 +1,4 @@
 -- Root of the `GoRedisModel` library: importing every property module builds the whole development.
 import GoRedisModel.Properties.C01
+import GoRedisModel.Properties.C02
+import GoRedisModel.Properties.C06
